@@ -193,7 +193,9 @@ impl CertificateRevocationListParams {
 		issuer: &Certificate,
 		issuer_key: &KeyPair,
 	) -> Result<CertificateRevocationList, Error> {
-		if self.next_update.le(&self.this_update) {
+		// Both times are encoded with a resolution of one second, so compare them
+		// at that resolution: nextUpdate must still be later than thisUpdate in the CRL.
+		if self.next_update.unix_timestamp() <= self.this_update.unix_timestamp() {
 			return Err(Error::InvalidCrlNextUpdate);
 		}
 
